@@ -168,6 +168,36 @@ def check(run):
                                   f"handler {'/'.join(h.exc)} absorbs {describe(body_fallible[0])}",
                                   f"an exception of {describe(body_fallible[0])} is caught by "
                                   f"`except {'/'.join(h.exc)}` and not re-raised", "handler re-raises")
+    # a `return` / `break` / `continue` inside a `finally` block discards the exception in flight: a failing
+    # callback (or metric, model, storage) would then look like a normal return and the observation is committed
+    import ast
+    n_finally = 0
+    swallowed = []
+    for path, text in sorted(prog.files.items()):
+        if "/visualization/" in path:
+            continue
+        for node in ast.walk(ast.parse(text)):
+            if isinstance(node, ast.Try) and node.finalbody:
+                n_finally += 1
+                todo = list(node.finalbody)
+                while todo:
+                    n = todo.pop()
+                    if isinstance(n, (ast.FunctionDef, ast.AsyncFunctionDef, ast.Lambda, ast.ClassDef)):
+                        continue
+                    if isinstance(n, ast.Return) or (isinstance(n, (ast.Break, ast.Continue)) and True):
+                        swallowed.append((path, n.lineno, type(n).__name__.lower()))
+                        continue
+                    if isinstance(n, (ast.For, ast.While)):
+                        # break / continue of a loop inside the finally block stay inside it; returns do not
+                        todo.extend(x for b in n.body + n.orelse for x in ast.walk(b) if isinstance(x, ast.Return))
+                        continue
+                    todo.extend(ast.iter_child_nodes(n))
+    for path, line, kind in swallowed:
+        run.fail("PROPAGATE", f"{path}:finally", f"{path}:{line}", path, f"`{kind}` inside a finally block",
+                 f"a `{kind}` in a `finally` block silently discards any exception raised in the protected block: "
+                 f"a failing callback is turned into a normal result and the caller goes on to commit the observation")
+    if not swallowed:
+        run.ok("PROPAGATE", "package.finally", f"{n_finally} finally blocks: none returns / breaks / continues")
     run.need(n_fallible >= 12, f"only {n_fallible} fallible call sites found (confirmed minimum 12)")
     run.notes["fallible_call_sites"] = n_fallible
 
